@@ -78,6 +78,9 @@ def patterns(tier):
     add('rand_n_ball(2,size=(2,3))', lambda s: R.rand_n_ball(2, size=(2, 3), seed=s))
     add('rand_F2(3,4)', lambda s: R.rand_F2(3, 4, seed=s))
     add('rand_F2(5,not_zero=True,not_one=True)', lambda s: R.rand_F2(5, not_zero=True, not_one=True, seed=s))
+    add('rand_F2(2,not_zero=True)', lambda s: R.rand_F2(2, not_zero=True, seed=s))               # rejection-heavy: a quarter of the seeds redraw
+    add('rand_F2(2,not_one=True)', lambda s: R.rand_F2(2, not_one=True, seed=s))
+    add('rand_F2(1,not_zero=True)', lambda s: R.rand_F2(1, not_zero=True, seed=s))
     add('rand_SpF2(3)', lambda s: R.rand_SpF2(3, seed=s), 'python')
     add('rand_SpF2(2,int_tuple)', lambda s: R.rand_SpF2(2, return_kind='int_tuple', seed=s), 'python')
     add('rand_SpF2(2,int_tuple-matrix)', lambda s: R.rand_SpF2(2, return_kind='int_tuple-matrix', seed=s), 'python')
@@ -255,7 +258,9 @@ def membership_event(a, seed):
     return dict(op='valid', kind='cont', fn=fn, a=a, S=SCALE, seed=seed, claims=C)
 
 
-def run_history(hist, kind, f):
+def run_history(hist, kind, f, base=100):
+    """base: the integer added to the abstract seed of the history (the specification speaks of seeds 1, 2; which integers they are is the
+    harness's choice - sweeping the base reaches seed-dependent branches such as a rejected first draw)"""
     import torch
     ev = []
     for op, arg in hist:
@@ -269,9 +274,9 @@ def run_history(hist, kind, f):
             f(None)
             ev.append(dict(op='unseeded'))
         elif op == 'seeded':
-            ev.append(dict(op='seeded', seed=arg, digest=digest(f(100 + arg))))
+            ev.append(dict(op='seeded', seed=arg, digest=digest(f(base + arg))))
         elif op == 'gen':
-            g = np.random.default_rng(100 + arg) if kind == 'numpy' else random.Random(100 + arg)
+            g = np.random.default_rng(base + arg) if kind == 'numpy' else random.Random(base + arg)
             ev.append(dict(op='gen', seed=arg, digest=digest(f(g))))
     return ev
 
@@ -334,15 +339,17 @@ def run(ctx):
         hs = canon + rng.sample(rel, 10 if quick else 146)
         if label.startswith(('CHABoundaryBagging', 'optimize.minimize', 'AutodiffCHAREE')):
             hs = canon[:2] + rng.sample(rel, 4)
-        for h in hs:
+        slow = label.startswith(('CHABoundaryBagging', 'optimize.minimize', 'AutodiffCHAREE'))
+        jobs = [(h, 100) for h in hs] + ([] if slow else [(canon[0] if kind != 'python' else canon[0], b) for b in range(0, (40 if quick else 200))])      # seed sweep of the first canonical history
+        for h, base in jobs:
             try:
-                t = run_history(h, kind, f)
+                t = run_history(h, kind, f, base)
             except Exception as ex:
-                ctx.violation('C10:exception:%s' % label.split('(')[0], type(ex).__name__ + ': ' + str(ex)[:160], dict(pattern=label, history=h))
+                ctx.violation('C10:exception:%s' % label.split('(')[0], type(ex).__name__ + ': ' + str(ex)[:160], dict(pattern=label, history=h, base=base))
                 continue
             traces.append(t)
-            meta.append((label, kind, f, h))
-            ctx.case(('rng', label, repr(h)))
+            meta.append((label, kind, f, h, base))
+            ctx.case(('rng', label, repr(h), base))
     acc, rej, results = tlc.validate_events('rng/Trace_Rng.tla', 'rng/Trace_Rng.cfg', traces, shards=16)
     for r in results:
         ctx.states += r.distinct
@@ -350,13 +357,13 @@ def run(ctx):
     ctx.models.append(dict(model='Trace_Rng[histories]', traces=len(traces), accepted=acc, rejected=len(rej), exhaustive=False))
     ctx.traces += len(traces)
     for gi, info in rej:
-        label, kind, f, h = meta[gi]
+        label, kind, f, h, base = meta[gi]
         # re-run once to exclude nondeterminism of the numerical libraries (both outcomes recorded)
-        t2 = run_history(h, kind, f)
+        t2 = run_history(h, kind, f, base)
         ev = traces[gi][info[1] - 1]
         fn = label.split('(')[0]
         ctx.violation('C10:%s:not-reproducible:%s' % (fn, ev['op']), '%s: output of a %s call depends on more than (arguments, seed) [pattern %s]' % (fn, 'seeded' if ev['op'] == 'seeded' else 'generator', label),
-                      dict(pattern=label, history=h, trace=traces[gi], rerun=t2, event=info[1]))
+                      dict(pattern=label, history=h, seed_base=base, trace=traces[gi], rerun=t2, event=info[1]))
     ctx.sample(dict(kind='history', pattern=meta[5][0], history=meta[5][3], recorded=traces[5]))
     ctx.extra['call_patterns'] = [p[0] for p in pats]
     # ---- validity of the discrete generators
